@@ -171,6 +171,49 @@ pub fn run(args: &[String]) -> i32 {
             handle.join().unwrap();
             0
         }
+        Some("rawkinds") => {
+            // rawkinds <file> <capacity|inf> <reckey 0|1>: node-kind sequence (WhiteSpace subtrees left out) of the raw parse
+            let text = std::fs::read_to_string(&args[1]).unwrap();
+            let cap: Option<usize> = args.get(2).and_then(|s| s.parse().ok());
+            let rec = args.get(3).map(|s| s == "1").unwrap_or(false);
+            let handle = std::thread::Builder::new()
+                .stack_size(1 << 30)
+                .spawn(move || {
+                    let (ppt, _) = sv::pp_plain(&text).unwrap();
+                    let r = sv::raw_parse(sv::Grammar::Sv, ppt.text(), cap, rec);
+                    match r.0 {
+                        Some(sv::RawTree::Sv(t)) => {
+                            let mut depth_ws = 0usize;
+                            let mut kinds: Vec<String> = Vec::new();
+                            for e in (&t).into_iter().event() {
+                                match e {
+                                    sv::NodeEvent::Enter(n) => {
+                                        if let sv::RefNode::WhiteSpace(_) = n {
+                                            depth_ws += 1;
+                                        }
+                                        if depth_ws == 0 {
+                                            kinds.push(sv::kind(&n));
+                                        }
+                                    }
+                                    sv::NodeEvent::Leave(n) => {
+                                        if let sv::RefNode::WhiteSpace(_) = n {
+                                            depth_ws -= 1;
+                                        }
+                                    }
+                                }
+                            }
+                            println!("{} nodes digest {:x}", kinds.len(), crate::engine::digest(kinds.join(",").as_bytes()));
+                            if std::env::var("DEV_DUMP").is_ok() {
+                                println!("{}", kinds.join(" "));
+                            }
+                        }
+                        _ => println!("rejected"),
+                    }
+                })
+                .unwrap();
+            handle.join().unwrap();
+            0
+        }
         Some("regions") => {
             let n: usize = args.get(1).and_then(|s| s.parse().ok()).unwrap_or(20);
             let mut seed: u64 = args.get(2).and_then(|s| s.parse().ok()).unwrap_or(1);
